@@ -1,6 +1,6 @@
 From RsdnsModel Require Import Base Cursor Names Labels Header Tracker RData Reader.
-From RsdnsModel.Spec Require Import WireName LinearPass.
-From RsdnsModel.Proofs Require Import Latch ReaderTotal LatchFull TrackerRefine SpecExec ParseSpec ReaderRefine.
+From RsdnsModel.Spec Require Import WireName LinearPass RDataWire.
+From RsdnsModel.Proofs Require Import Latch ReaderTotal LatchFull TrackerRefine SpecExec ParseSpec ReaderRefine MessageRT.
 From RsdnsModel.Properties Require Import C09.
 Open Scope N_scope.
 Check (C09_stays_exhausted : forall msg r, r_done r = true ->
@@ -155,4 +155,13 @@ Check (C09_linear_pass_parses : forall msg l, linear_of msg = Some l ->
     (lenN (l_qs l) < l_nq l -> question_at msg e2 = None) /\
     (lenN (l_qs l) = l_nq l -> lenN rs < nrec l ->
      match record_at msg e2 with Some it => a_data_ok it = false | None => True end)).
-Print Assumptions C09_stays_exhausted. Print Assumptions C09_error_latches. Print Assumptions C09_tracker_refines. Print Assumptions C09_tracker_init. Print Assumptions C09_counts. Print Assumptions C09_seek. Print Assumptions C09_record_section. Print Assumptions C09_tracker_example. Print Assumptions C09_question_parse_is_spec. Print Assumptions C09_record_parse_is_spec. Print Assumptions C09_reader_refines. Print Assumptions C09_complete_is_within. Print Assumptions C09_unparsable_question_fails. Print Assumptions C09_unparsable_record_fails. Print Assumptions C09_question_flavours. Print Assumptions C09_owned_question_too_long. Print Assumptions C09_record_header_flavours. Print Assumptions C09_record_data_flavours. Print Assumptions C09_counts_reader. Print Assumptions C09_seek_by_skipping. Print Assumptions C09_seek_refused. Print Assumptions C09_reader_start. Print Assumptions C09_linear_pass_parses.
+Check (C09_example_run : exists qs rs e1 e2 h c,
+    parsed example_msg 1 1 0 0 qs rs e1 e2 /\ lenN qs = 1 /\ lenN rs = 1 /\
+    read_header example_msg (c_new example_msg) = (c, Ok h) /\
+    let r0 := mkReader c (tr_set tr_default h) false in
+    RState example_msg 1 1 0 0 qs rs e2 r0 0 0 /\
+    allowed 1 1 0 0 [TQuestion; TRecord; TSeek 0; TRecord] 0 0 = Some (2, 2) /\
+    within 1 1 0 0 qs rs [TQuestion; TRecord; TSeek 0; TRecord] 0 0 /\
+    exists r', RState example_msg 1 1 0 0 qs rs e2 r' 2 2 /\
+               prescribed example_msg 1 1 0 0 qs rs r' [TQuestion; TRecord; TSeek 0; TRecord] r0 0 0).
+Print Assumptions C09_stays_exhausted. Print Assumptions C09_error_latches. Print Assumptions C09_tracker_refines. Print Assumptions C09_tracker_init. Print Assumptions C09_counts. Print Assumptions C09_seek. Print Assumptions C09_record_section. Print Assumptions C09_tracker_example. Print Assumptions C09_question_parse_is_spec. Print Assumptions C09_record_parse_is_spec. Print Assumptions C09_reader_refines. Print Assumptions C09_complete_is_within. Print Assumptions C09_unparsable_question_fails. Print Assumptions C09_unparsable_record_fails. Print Assumptions C09_question_flavours. Print Assumptions C09_owned_question_too_long. Print Assumptions C09_record_header_flavours. Print Assumptions C09_record_data_flavours. Print Assumptions C09_counts_reader. Print Assumptions C09_seek_by_skipping. Print Assumptions C09_seek_refused. Print Assumptions C09_reader_start. Print Assumptions C09_linear_pass_parses. Print Assumptions C09_example_run.
